@@ -30,6 +30,7 @@ type fwdRec struct {
 	Outs   []int32    `json:"outs"`
 	Vis    [][][2]int `json:"vis"`    // per batch entry: visible history as [kpos, tok], sorted
 	Chosen []int32    `json:"chosen"` // per output: the token the logits select
+	Cross  int32      `json:"cross"`  // encoder mode: the cross-attention input the encoder cache supplied (-1: none)
 }
 
 type scripted struct {
@@ -42,6 +43,10 @@ type scripted struct {
 	// concurrent stage: requests of a burst meet in Encode (NewSequence, just before the slot selection) and go on together
 	barrierN   int32
 	barrierCnt atomic.Int32
+	// encoder mode (mllama-style): Config().Cache is (a front of) wrapper = WrapperCache(enc, Causal); layer type 0 is
+	// the cross-attention layer backed by enc, layer type 1 the self-attention layer backed by the Causal
+	wrapper *kvcache.WrapperCache
+	enc     *kvcache.EncoderCache
 }
 
 // hashVis is the "network": a function of the visible history only.
@@ -73,6 +78,24 @@ func (m *scripted) Forward(ctx ml.Context, batch input.Batch) (ml.Tensor, error)
 	rec.Toks = eff
 	cache := m.Config().Cache
 	rec.Vis = make([][][2]int, n)
+	rec.Cross = -1
+	if m.wrapper != nil {
+		// cross-attention layer, as mllama's TextCrossAttention does it: an image in the batch is stored; whatever the
+		// encoder cache then says it holds is what every token of the batch attends to
+		m.wrapper.SetLayer(0)
+		m.wrapper.SetLayerType(0)
+		if k := len(batch.Multimodal); k > 0 {
+			if v, ok := batch.Multimodal[k-1].Multimodal.(int32); ok {
+				img, _ := ctx.FromFloatSlice([]float32{float32(v)}, 1)
+				m.wrapper.Put(ctx, img, img)
+			}
+		}
+		if m.enc.EncoderCached() {
+			k, _, _ := m.wrapper.Get(ctx)
+			rec.Cross = int32(k.(*fakeTensor).data[0])
+		}
+		m.wrapper.SetLayerType(1)
+	}
 	if cache != nil {
 		kd := make([]float32, 0, 2*n)
 		for i := 0; i < n; i++ {
@@ -118,7 +141,11 @@ func (m *scripted) Forward(ctx ml.Context, batch input.Batch) (ml.Tensor, error)
 	}
 	logits := make([]float32, int(m.vocab)*len(batch.Outputs))
 	for oi, o := range batch.Outputs {
-		t := hashVis(rec.Vis[o], m.vocab)
+		vis := rec.Vis[o]
+		if rec.Cross >= 0 {
+			vis = append([][2]int{{-1, int(rec.Cross)}}, vis...)
+		}
+		t := hashVis(vis, m.vocab)
 		rec.Chosen = append(rec.Chosen, t)
 		logits[oi*int(m.vocab)+int(t)] = 1
 	}
